@@ -19,7 +19,8 @@ ASSUMPTIONS = ['unit cells are bounded by pairs of parallel planes listed pairwi
 
 def plan(tier):
     q = tier == 'quick'
-    return [('monitor', 200 if q else 3000, {}), ('optlattice', 60 if q else 600, {}), ('model', 50 if q else 800, {})]
+    return [('monitor', 200 if q else 3000, {}), ('optlattice', 60 if q else 600, {}), ('model', 50 if q else 800, {}),
+            ('degenerate', 6 if q else 40, {})]
 
 
 def search_plan(tier, disagreements):
@@ -38,6 +39,18 @@ def run_case(stream, seed, ctx, params):
     d = U.build_universe_deck(rng, depth=rng.randint(1, 2), macro_p=0.0, tr_p=0.0, fill_tr_p=0.4, trcl_p=0.2,
                               reuse_p=0.3, lattice_p=0.7, lat_kind=kind, lat_tr_p=0.35, lat_trcl_p=0.25)
     args = random_options(rng)
+    if stream == 'degenerate':
+        # the configuration of the open finding F21, built on purpose so that every run exercises it: a 2-D lattice
+        # whose FILL gives a degenerate range in a real dimension and a trailing 0:0
+        d = U.build_universe_deck(rng, depth=1, macro_p=0.0, tr_p=0.0, fill_tr_p=0.0, trcl_p=0.0, reuse_p=0.0,
+                                  lattice_p=1.0, lat_kind='rect2', lat_tr_p=0.0, lat_trcl_p=0.0)
+        lat = [c for c in d.cells if c.lat and len(c.fill['ranges']) == 2]
+        if not lat:
+            return None
+        c = lat[0]
+        us = (c.fill['us'] + [c.fill['us'][0]])[:2]
+        c.fill['ranges'] = [(1, 1), (-2, -1), (0, 0)]
+        c.fill['us'] = us
     if stream == 'optlattice':
         # FILL=n on lattice cells + --lattice ranges (homogeneous fill)
         lat = [c for c in d.cells if c.lat]
